@@ -494,7 +494,7 @@ func checkC19(rep *Report, rng *Rng, tier string) {
 			if r.Chance(1, 8) {
 				out = append(out, Op{K: "flush"}, Op{K: "reopen"})
 				opens++
-				k := []string{"geti", "get", "exist", "min", "max", "geti", "asc", "desc", "ascx", "descx"}[r.Intn(10)]
+				k := []string{"geti", "get", "exist", "min", "max", "geti", "asc", "desc", "ascx", "descx", "set", "del", "set", "del"}[r.Intn(14)]
 				key := o.Key
 				if len(key) == 0 {
 					key = []byte("a")
@@ -503,7 +503,15 @@ func checkC19(rep *Report, rng *Rng, tier string) {
 				if r.Chance(1, 2) {
 					stop = r.Intn(6)
 				}
-				out = append(out, Op{K: k, Name: o.Name, Key: key, WV: r.Chance(1, 2), N: stop})
+				if k == "set" || k == "del" {
+					// the first mutation on a store with nothing cached: its exact ReadAt calls vs LazyMut
+					if r.Chance(1, 2) && len(key) < 60 {
+						key = append(append([]byte{}, key...), byte('a'+r.Intn(26))) // usually a new key
+					}
+					out = append(out, Op{K: k, Name: o.Name, Key: key, Val: genVal(r, false), Prio: int32(r.U64() & 0x7fffffff)})
+				} else {
+					out = append(out, Op{K: k, Name: o.Name, Key: key, WV: r.Chance(1, 2), N: stop})
+				}
 			}
 			if r.Chance(1, 40) {
 				out = append(out, Op{K: "copyfail"})
@@ -532,6 +540,7 @@ func checkC19(rep *Report, rng *Rng, tier string) {
 	rep.Extra["reopens_generated"] = opens
 	rep.Extra["read_lists_compared_with_model"] = lazyCompared
 	rep.Extra["open_read_lists_compared_with_model"] = lazyOpenCompared
+	rep.Extra["mutation_read_lists_compared_with_model"] = lazyMutCompared
 }
 
 func genC02(r *Rng, i int) (CfgDesc, []Op) {
@@ -608,7 +617,7 @@ func genC06(r *Rng, i int) (CfgDesc, []Op) {
 	return d, ops
 }
 
-var lazyCompared, lazyOpenCompared int
+var lazyCompared, lazyOpenCompared, lazyMutCompared int
 
 func init() {
 	postOracles["lazyreads"] = func(cfg *RunCfg) {
@@ -664,6 +673,22 @@ func init() {
 				if exp != got {
 					return &Mismatch{Kind: "reads-vs-model", Expected: exp, Observed: got,
 						Note: "ReadAt calls (offset:length) of the first visit after re-opening vs the Coq model Lazy.visit_reads"}
+				}
+				return nil
+			}
+			if op.K == "set" || op.K == "del" {
+				rc, ok := w.H[0].Ref.Colls[op.Name]
+				if !ok || (op.K == "set" && op.Val == nil) {
+					return nil
+				}
+				exp, err := getModel().request(fmt.Sprintf("mutreads %s %d %s %s %d %s", op.K, rc.Cmp, hx([]byte(op.Name)), hx(op.Key), op.Prio, hexFile(img)))
+				if err != nil {
+					return &Mismatch{Kind: "model-runner", Expected: "model evaluation", Observed: err.Error()}
+				}
+				lazyMutCompared++
+				if exp != got {
+					return &Mismatch{Kind: "reads-vs-model", Expected: exp, Observed: got,
+						Note: "ReadAt calls (offset:length) of the first SetItem / Delete after re-opening vs the Coq model LazyMut.set_treads / del_treads"}
 				}
 				return nil
 			}
